@@ -72,25 +72,25 @@ def flatCells (g : Option (Term β)) (cell : β) : List (β × Term β) → List
     ⟨⟨.bnode cell, rdfRest, .bnode b⟩, g⟩ :: ⟨⟨.bnode b, rdfFirst, x⟩, g⟩ :: flatCells g b rest
 
 mutual
-/-- the quads inside a tree (not the one linking it to its parent) -/
-def flatTree (g : Option (Term β)) : Tree β → List (DQuad β)
-  | .node id groups => flatGroups g id.subj groups
-  | .term _ => []
-  | .list [] => []
-  | .list ((b, x) :: rest) => ⟨⟨.bnode b, rdfFirst, x⟩, g⟩ :: flatCells g b rest
+/-- the quads of a tree standing as a value of property `p` of subject `s`: the quads inside it and the
+    one linking it -/
+def flatVal (g : Option (Term β)) (s : Term β) (p : Str) : Tree β → List (DQuad β)
+  | .node id groups => flatGroups g id.subj groups ++ [⟨⟨s, p, id.subj⟩, g⟩]
+  | .term t => [⟨⟨s, p, t⟩, g⟩]
+  | .list [] => [⟨⟨s, p, .iri rdfNil⟩, g⟩]
+  | .list ((b, x) :: rest) => ⟨⟨s, p, .bnode b⟩, g⟩ :: ⟨⟨.bnode b, rdfFirst, x⟩, g⟩ :: flatCells g b rest
 def flatGroups (g : Option (Term β)) (s : Term β) : List (Str × List (Tree β)) → List (DQuad β)
   | [] => []
   | (p, vs) :: rest => flatVals g s p vs ++ flatGroups g s rest
 def flatVals (g : Option (Term β)) (s : Term β) (p : Str) : List (Tree β) → List (DQuad β)
   | [] => []
-  | v :: vs =>
-    (match v with
-     | .node id groups => flatGroups g id.subj groups ++ [⟨⟨s, p, id.subj⟩, g⟩]
-     | .term t => [⟨⟨s, p, t⟩, g⟩]
-     | .list [] => [⟨⟨s, p, .iri rdfNil⟩, g⟩]
-     | .list ((b, x) :: rest) => ⟨⟨s, p, .bnode b⟩, g⟩ :: ⟨⟨.bnode b, rdfFirst, x⟩, g⟩ :: flatCells g b rest)
-    ++ flatVals g s p vs
+  | v :: vs => flatVal g s p v ++ flatVals g s p vs
 end
+
+/-- the quads of a node object of the top level or of `@graph` -/
+def flatTree (g : Option (Term β)) : Tree β → List (DQuad β)
+  | .node id groups => flatGroups g id.subj groups
+  | _ => []
 
 def flatNodes (g : Option (Term β)) : List (Tree β) → List (DQuad β)
   | [] => []
@@ -187,6 +187,13 @@ def denId (name : β → Str) : NodeId β → Nat → T × Nat
   | .anon _, n => (.bnode (.fresh n), n + 1)
 
 mutual
+/-- a tree as a value of `p` of `s` at counter `n` -/
+def denVal (name : β → Str) (g : Option T) (s : T) (p : Str) : Tree β → Nat → List Q × Nat
+  | .node id groups, n =>
+    let r := denGroups name g (denId name id n).1 groups (denId name id n).2
+    (r.1 ++ [quad s p (denId name id n).1 g], r.2)
+  | .term t, n => ([quad s p (outTerm name t) g], n)
+  | .list cells, n => denList name g s p cells n
 def denGroups (name : β → Str) (g : Option T) (s : T) : List (Str × List (Tree β)) → Nat → List Q × Nat
   | [], n => ([], n)
   | (p, vs) :: rest, n =>
@@ -195,15 +202,8 @@ def denGroups (name : β → Str) (g : Option T) (s : T) : List (Str × List (Tr
     (a.1 ++ b.1, b.2)
 def denVals (name : β → Str) (g : Option T) (s : T) (p : Str) : List (Tree β) → Nat → List Q × Nat
   | [], n => ([], n)
-  | .node id groups :: vs, n =>
-    let r := denGroups name g (denId name id n).1 groups (denId name id n).2
-    let b := denVals name g s p vs r.2
-    (r.1 ++ [quad s p (denId name id n).1 g] ++ b.1, b.2)
-  | .term t :: vs, n =>
-    let b := denVals name g s p vs n
-    (quad s p (outTerm name t) g :: b.1, b.2)
-  | .list cells :: vs, n =>
-    let a := denList name g s p cells n
+  | v :: vs, n =>
+    let a := denVal name g s p v n
     let b := denVals name g s p vs a.2
     (a.1 ++ b.1, b.2)
 end
